@@ -4,6 +4,7 @@ import (
 	"fmt"
 	"go/token"
 	"go/types"
+	"strings"
 
 	"golang.org/x/tools/go/ssa"
 )
@@ -233,6 +234,86 @@ func c04(r *Report) {
 	})
 
 	r.Guard("C04.R3", "the upstream connection and response body are released on every exit", func() {
+		// the connection connect() hands to the tunnel carries no leftover time limit
+		// and no abortive-close setting: a deadline armed for the CONNECT handshake is
+		// disarmed, for reading and for writing, on every path to the successful
+		// return; SO_LINGER is never set (a zero linger turns the close after the last
+		// byte into a reset that discards bytes the peer has not read yet)
+		for _, f := range w.Funcs("") {
+			for _, c := range calls(f) {
+				cc := c.Common()
+				if cc.IsInvoke() {
+					continue
+				}
+				if n := calleeName(c); strings.HasSuffix(n, ").SetLinger") {
+					r.Fail("callgraph", fnName(f)+": "+n, "the core sets SO_LINGER on a connection: closing it after a half-close resets the connection and the tail of the data in flight is lost", nil, c.Pos())
+				}
+			}
+		}
+		gconn := G(conn)
+		zeroTime := func(v ssa.Value) bool {
+			switch x := v.(type) {
+			case *ssa.Const:
+				return x.Value == nil
+			case *ssa.UnOp:
+				if a, ok := x.X.(*ssa.Alloc); ok && x.Op == token.MUL {
+					return len(storesTo(a)) == 0 && !allocEscapes(a)
+				}
+			}
+			return false
+		}
+		for _, c := range calls(conn) {
+			cc := c.Common()
+			if !cc.IsInvoke() || len(cc.Args) != 1 || zeroTime(cc.Args[0]) {
+				continue
+			}
+			var need []string
+			switch cc.Method.Name() {
+			case "SetDeadline":
+				need = []string{"Read", "Write"}
+			case "SetReadDeadline":
+				need = []string{"Read"}
+			case "SetWriteDeadline":
+				need = []string{"Write"}
+			default:
+				continue
+			}
+			for _, side := range need {
+				clears := func(i ssa.Instruction) bool {
+					d, ok := i.(ssa.CallInstruction)
+					if !ok || !d.Common().IsInvoke() || len(d.Common().Args) != 1 || !zeroTime(d.Common().Args[0]) {
+						return false
+					}
+					m := d.Common().Method.Name()
+					return m == "SetDeadline" || m == "Set"+side+"Deadline"
+				}
+				var wit []ssa.Instruction
+				for _, ret := range returns(conn) {
+					// successful returns: the error result is nil
+					okRet := false
+					for _, v := range retVals(ret, 2) {
+						for _, l := range resolveAll(v) {
+							if isNilConst(l) {
+								okRet = true
+							}
+						}
+					}
+					if !okRet {
+						continue
+					}
+					if p := gconn.PathTo([]ssa.Instruction{c}, false, clears, func(i ssa.Instruction) bool { return i == ssa.Instruction(ret) }); p != nil {
+						wit = p
+					}
+				}
+				r.Paths++
+				if wit != nil {
+					r.Fail("path", fmt.Sprintf("(*M.Proxy).connect: %s deadline armed by %s is disarmed before the connection is handed over", strings.ToLower(side), site(conn, c)), "the "+strings.ToLower(side)+" deadline set for the CONNECT handshake is still armed on the connection the tunnel gets: some seconds into the tunnel every "+strings.ToLower(side)+" fails, and the peer is given a false end of stream", witness(w, wit), c.Pos())
+				} else {
+					r.Hold("path", fmt.Sprintf("(*M.Proxy).connect: %s deadline armed by %s is disarmed before the connection is handed over", strings.ToLower(side), site(conn, c)), "a zero deadline is set on every path to the successful return", c.Pos())
+				}
+			}
+		}
+
 		tests := errTests(cconnCalls[0])
 		if len(tests) != 1 {
 			r.Fail("path", "(*M.Proxy).handleConnectRequest: connect error tested", "connect's error is not tested exactly once", nil, cconnCalls[0].Pos())
@@ -363,6 +444,7 @@ func c04(r *Report) {
 			pf := g.PathTo(blockStart(tests[0].NonNil), true, isF, func(i ssa.Instruction) bool { return i == ssa.Instruction(ret) })
 			r.Paths += 2
 			r.Decide("path", fmt.Sprintf("(*M.Proxy).handleConnectRequest: 502 written and flushed before failure exit #%d", k+1), pw == nil && pf == nil, "Write and Flush on every path", "a failed CONNECT can return without writing/flushing the 502", ret.Pos())
+			connectFailureReturn(r, hcr, cconnCalls[0], ret, k)
 		}
 	})
 
@@ -486,4 +568,43 @@ func ordinalDyn(f *ssa.Function, c *ssa.Call) int {
 		}
 	}
 	return 0
+}
+
+// connectFailureReturn: after the 502 for a failed CONNECT the connection goes
+// on serving; the exit hands the connection loop the outcome of writing the
+// 502, never the dial error itself (a dial timeout is "closeable" and would
+// end a connection that can still be used). Shared by C04.R4 and C03.R8.
+func connectFailureReturn(r *Report, hcr *ssa.Function, connect *ssa.Call, ret *ssa.Return, k int) {
+	dialErr := false
+	for _, v := range retVals(ret, 0) {
+		for _, l := range resolveAll(v) {
+			for _, e := range errOf(connect) {
+				if l == e {
+					dialErr = true
+				}
+			}
+		}
+	}
+	r.Decide("flow", fmt.Sprintf("(*M.Proxy).handleConnectRequest: failure exit #%d does not return the connect error", k+1), !dialErr, "returns the flush outcome / nil", "the failed-CONNECT exit returns the dial error to the connection loop: when that error is closeable (a timeout) the client's connection is closed right after the 502 instead of serving further requests", ret.Pos())
+}
+
+// allocEscapes: the address of a local is passed on (so it may be written
+// elsewhere); used to recognise a zero value that nothing fills in.
+func allocEscapes(a *ssa.Alloc) bool {
+	if a.Referrers() == nil {
+		return false
+	}
+	for _, u := range *a.Referrers() {
+		switch x := u.(type) {
+		case *ssa.UnOp:
+		case *ssa.Store:
+			if x.Val == ssa.Value(a) {
+				return true
+			}
+		case *ssa.DebugRef:
+		default:
+			return true
+		}
+	}
+	return false
 }
